@@ -8,8 +8,7 @@ are immutable fixed-window records; the composite sees whitelists only through i
 END time, "has a token cap", the factory's minimum / airdrop price and the clock.  An open edition has no discount: the
 projected `discount` is `none` and `lastDiscount` is `0` (what `PriceRules.freshMinter` writes for `oe`).
 
-One message of the family has NO aspect op: `UpdateEndTime` (the aspect model's `stop` is immutable).  The simulation
-therefore excludes it (`NoEndUpdate`); `price_updateEnd` states what it does to the projection (only `stop` changes).
+EVERY message of the family is simulated (`UpdateEndTime` ↦ `PriceRules.Op.updateEnd`).
 -/
 namespace LP.OE
 open LP
@@ -49,12 +48,10 @@ def priceOps (s : State) (op : Op) : List PriceRules.Op :=
     | .setTime t => [.setTime t]
     | .updateMintPrice sender funds p => [.updateMintPrice sender (!funds.isEmpty) p]
     | .updateStartTime sender funds t => [.updateStart sender (!funds.isEmpty) t]
+    | .updateEndTime sender funds t => [.updateEnd sender (!funds.isEmpty) t]
     | .sudoParams u => sudoPriceOps u
     | _ => []
   else []
-
-/-- the one message the aspect model does not have -/
-def NoEndUpdate (op : Op) : Prop := ∀ sender funds t, op ≠ .updateEndTime sender funds t
 
 theorem price_step'_ok {w w' : PriceRules.World} {op : PriceRules.Op} (h : PriceRules.step w op = .ok w') :
     PriceRules.step' w op = w' := by simp [PriceRules.step', h]
@@ -113,12 +110,17 @@ theorem price_updateStart {s : State} {m m' : Minter} {sender : Addr} {funds : L
     simp [PriceRules.step, PriceRules.updateStart, priceOf, priceMinter, PriceRules.adminOk, priceVariant,
       PriceRules.setMinter, he, h2, h3, h4]
 
-/-- `UpdateEndTime` (no aspect op): on the projection only `stop` changes -/
+/-- `UpdateEndTime`: an accepted composite message is the accepted aspect `updateEnd` -/
 theorem price_updateEnd {s : State} {m m' : Minter} {sender : Addr} {funds : List Coin} {t : Nat}
     (h : updateEndTime s m sender funds t = .ok m') :
-    priceOf s m' = { priceOf s m with m := some { priceMinter m with stop := some t } } := by
-  obtain ⟨e, _, _, _, _, _, _, rfl⟩ := updateEndTime_ok h
-  rfl
+    PriceRules.step (priceOf s m) (.updateEnd sender (!funds.isEmpty) t) = .ok (priceOf s m') := by
+  obtain ⟨e, hfu, hse, he, hlt, hnow, hst, rfl⟩ := updateEndTime_ok h
+  subst hfu hse
+  have h1 : ¬ e ≤ s.now := by omega
+  have h2 : ¬ t < s.now := by omega
+  have h3 : ¬ t < m.startTime := by omega
+  simp [PriceRules.step, PriceRules.updateEnd, priceOf, priceMinter, PriceRules.adminOk, priceVariant,
+    PriceRules.setMinter, he, h1, h2, h3]
 
 /-- governance: an accepted `sudo UpdateParams` is the accepted `sudoMin` / `sudoAirdrop` ops for the fields it carries (the
 open-edition factory does not insist on the native denom for the airdrop price) -/
